@@ -88,6 +88,29 @@ def stage_generate(job, work, binary, flags, seed, variant):
     return job
 
 
+def locate_crash(job, binary, flags, seed, work):
+    """re-run the crashing job with --progress: the last PROGRESS line on stderr names the test that killed the process"""
+    inst = job['inst']
+    cmd = job['exec']['cmd'] + ['--progress', '--out', work.path(job['tag'] + '.crash')]
+    import subprocess
+    p = subprocess.run(cmd, stdout=subprocess.PIPE, stderr=subprocess.PIPE, text=True)
+    last = [l for l in p.stderr.splitlines() if l.startswith('PROGRESS ')][-1:]
+    d = dict(kind=job['kind'], instance=inst['name'], cfg=inst['cfg'], keys=inst['keys'], tc=inst['tc'], variant=list(job['variant']),
+             crash_signal=-job['exec']['rc'], stderr=job['exec']['stderr'][-600:], record={'ret': 'process died (signal %d)' % -job['exec']['rc']},
+             op={'op': 'process-crash'})
+    if last:
+        _, sid, opj = last[0].split(' ', 2)
+        try:
+            d['op'] = json.loads(opj)
+            d['sid'] = int(sid)
+            nstates = (job['tlc'] or {}).get('distinct', 0)
+            if 0 < d['sid'] <= nstates:
+                d['path'] = vlib.state_path(job['driver'], d['sid'])
+        except Exception:
+            pass
+    return d
+
+
 def describe(job, rec, jump, variant):
     inst = job['inst']
     d = dict(kind=job['kind'], instance=inst['name'], cfg=inst['cfg'], keys=inst['keys'], tc=inst['tc'],
@@ -199,16 +222,15 @@ def run_list_prop(prop, tier, seed, only_kinds=None, harness_variant='std', coll
             apa_future = [apa_pool.submit(vlib.apalache_inductive, vlib.LEN_MODULES[k][0], vlib.LEN_MODULES[k][1], work.dir) for k in kinds]
             tlaps_future = [apa_pool.submit(vlib.tlaps_prove, vlib.LEN_MODULES[k][0], work.dir) for k in kinds]
         vlib.pool_map(lambda j: stage_generate(j, work, binary, flags, seed, j['variant']), jobs, 4)
+        crashes = []
         for j in jobs:
             if j['exec']['rc'] != 0:
-                # a crash of the harness process is a memory-safety symptom only C03 may claim
-                if prop in ('C03',) and j['exec']['rc'] < 0:
-                    desc = dict(kind=j['kind'], instance=j['inst']['name'], cfg=j['inst']['cfg'], crash_signal=-j['exec']['rc'],
-                                op={'op': 'process-crash'}, stderr=j['exec']['stderr'])
-                    rp = write_replay(prop, desc)
-                    print('VIOLATION property=%s replay=%s' % (prop, rp), flush=True)
-                    finish(prop, tier, seed, jobs, [desc], t0, work)
-                    return 1
+                # the harness process died on a signal (abort from a null/misaligned-pointer check, SIGSEGV on a poisoned
+                # pointer, ...): a memory-safety symptom, which the memory properties claim; elsewhere it is a tool error
+                if prop in ('C03', 'C18') and j['exec']['rc'] < 0:
+                    crashes.append(locate_crash(j, binary, flags, seed, work))
+                    j['shards'] = []
+                    continue
                 raise ToolError('harness failed rc=%s on %s: %s' % (j['exec']['rc'], j['tag'], j['exec']['stderr']))
         tasks = [(j, s, prop, work, j['variant']) for j in jobs for s in j['shards']]
         heap_stats = None
@@ -219,7 +241,7 @@ def run_list_prop(prop, tier, seed, only_kinds=None, harness_variant='std', coll
                 tasks += [(j, s, 'HEAP', work, j['variant']) for j in jobs if j['kind'] == 'raw' and not j.get('random_only') for s in j['shards']]
         log('[%s] validating %d shards' % (prop, len(tasks)))
         res = vlib.pool_map(validate_shard, tasks, max(2, vlib.NCPU - 2))
-        viols = [d for r in res for d in r]
+        viols = crashes + [d for r in res for d in r]
         # An event the pointer-level model cannot explain is MODEL DRIFT, not a violation: the model pins one statement
         # order, while the properties only forbid hazards (judged by C18Event / C04Event on the same events).  It is
         # reported on stderr and in the evidence and does not change the verdict.
@@ -391,7 +413,7 @@ def finish(prop, tier, seed, jobs, viols, t0, work, proofs=None):
         for k, v in ((j['exec']['stats'] or {}).get('by_kind') or {}).items():
             by_kind[k] = by_kind.get(k, 0) + v
     missing = [k for k in REQUIRED_EVENTS.get(prop, []) if by_kind.get(k, 0) == 0]
-    if missing and not os.environ.get('VERIF_ALLOW_VACUOUS'):
+    if missing and not viols and not os.environ.get('VERIF_ALLOW_VACUOUS'):
         raise ToolError('vacuous run of %s: no event of kind(s) %s was exercised on the implementation' % (prop, missing))
     samples = []
     for j in jobs[:3]:
